@@ -475,6 +475,8 @@ def differential(prop_id, cases, monitor=None, finding_class=None, nontrivial=No
         # answers that may be an artefact of a loaded machine (a time limit of the harness, a resource the process could
         # not get): the case runs once more, alone, with a longer limit; only what it answers then is judged
         again = [i for i in range(len(lines)) if retry(impl[i])]
+        hung = [i for i in again if "HANG" in impl[i]]
+        again = [i for i in again if i not in set(hung[6:])]
         if again:
             env2 = dict(impl_env or ENV, VERIF_NET_WATCHDOG="45")
             if len(again) <= 12:
@@ -500,6 +502,8 @@ def differential(prop_id, cases, monitor=None, finding_class=None, nontrivial=No
         # engines that talk to real sockets: an answer that differs from the model's is taken once more, with few cases in
         # flight (a port handed to another process between two steps, a time limit under load); what persists is judged
         again = [i for i in range(len(lines)) if cz(lines[i], impl[i]) != model[i]]
+        hung = [i for i in again if "HANG" in impl[i]]
+        again = [i for i in again if i not in set(hung[6:])][:80]
         if again:
             env2 = dict(impl_env or ENV, VERIF_NET_WATCHDOG="45")
             for i, o in zip(again, run_lines(IMPL_BIN[0], [lines[i] for i in again], shards=1 if len(again) <= 12 else 2, env=env2)):
